@@ -59,15 +59,44 @@ func vC15Log(n int, objs []string) ([]*objecttree.Change, [][]int) {
 	}
 	log = append(log, root)
 	dels = append(dels, rootDel)
-	prev := "c0"
+	// The log is the linearisation of a DAG: a change is made on top of the previous one or, concurrently with
+	// it, on top of the one before.  A change may also be a snapshot change: besides its own deletion it then
+	// carries every deletion its author had seen, i.e. those of its ancestors - not those of a concurrent branch.
+	cids := []string{"c0", "c1", "c2", "c3", "c4", "c5"}
+	anc := make([][]bool, n+1)
+	anc[0] = make([]bool, n+1)
+	anc[0][0] = true
 	for j := 1; j <= n; j++ {
 		k := rt.Choose(len(objs))
-		data, _ := (&spacesyncproto.SettingsData{Content: []*spacesyncproto.SpaceSettingsContent{
-			{Value: &spacesyncproto.SpaceSettingsContent_ObjectDelete{ObjectDelete: &spacesyncproto.ObjectDelete{Id: objs[k]}}}}}).MarshalVT()
-		id := []string{"c1", "c2", "c3", "c4", "c5"}[j-1]
-		log = append(log, &objecttree.Change{Id: id, PreviousIds: []string{prev}, Data: data})
+		parent := j - 1
+		if j >= 2 && rt.Choose(2) == 1 {
+			parent = j - 2
+		}
+		anc[j] = make([]bool, n+1)
+		copy(anc[j], anc[parent])
+		anc[j][j] = true
+		sd := &spacesyncproto.SettingsData{Content: []*spacesyncproto.SpaceSettingsContent{
+			{Value: &spacesyncproto.SpaceSettingsContent_ObjectDelete{ObjectDelete: &spacesyncproto.ObjectDelete{Id: objs[k]}}}}}
+		if rt.Param("snap", 0) == 1 && rt.Choose(2) == 1 {
+			seen := map[int]bool{k: true}
+			for a := 0; a < j; a++ {
+				if anc[j][a] {
+					for _, d := range dels[a] {
+						seen[d] = true
+					}
+				}
+			}
+			snap := &spacesyncproto.SpaceSettingsSnapshot{}
+			for i := range objs {
+				if seen[i] {
+					snap.DeletedIds = append(snap.DeletedIds, objs[i])
+				}
+			}
+			sd.Snapshot = snap
+		}
+		data, _ := sd.MarshalVT()
+		log = append(log, &objecttree.Change{Id: cids[j], PreviousIds: []string{cids[parent]}, Data: data})
 		dels = append(dels, []int{k})
-		prev = id
 	}
 	return log, dels
 }
